@@ -142,7 +142,7 @@ def check_run(spec, r):
                         continue
                 vios.append((f'C07:sim={sim}:stored-1m-row-differs-from-input', f'{sym} row {i}: stored {list(a)}, input {list(b)}, previous close {pc}'))
                 break
-    if r['error'] and r['error']['type'] not in ('InsufficientMargin', 'InsufficientBalance', 'InvalidStrategy', 'OrderNotAllowed'):
+    if r['error'] and r['error']['type'] not in ('InsufficientMargin', 'InsufficientBalance', 'InvalidStrategy', 'OrderNotAllowed', 'Watchdog'):
         vios.append((f"C07:sim={sim}:session-raised-{r['error']['type']}", r['error']['msg'][:200] + ' ' + r['error']['tb'][-300:]))
     return vios, flags
 
